@@ -40,6 +40,11 @@ pub fn tamper_cases(tier: &str, seed: u64) -> Vec<Case> {
             }
         }
     }
+    // EVERY bit of the file header through the public API (implementation + oracle only; the model answers one sampled bit per block):
+    // key mode 132 bytes = 33 blocks of 32 bits, password mode 36 bytes = 9 blocks (one scrypt per flipped bit)
+    for (mode, nblocks) in [("key", 33usize), ("pass", 9usize)] {
+        for b in 0..nblocks { v.push(case(&[("kind", "hdrbits".into()), ("mode", mode.into()), ("plen", (if b % 2 == 0 { 13 } else { 65537 }).to_string()), ("block", b.to_string()), ("seed", rng.next().to_string())])); }
+    }
     // production-size files through the public API: header and record tamperings
     for mode in ["key", "pass"] {
         for &plen in &[0usize, 13, 65536, 65537, 140000] {
@@ -94,7 +99,41 @@ fn api_tamper(c: &Case) -> (Vec<u8>, Vec<u8>, Vec<u8>, Vec<u8>, Vec<u8>, String,
     (f, p, rk, rpk, t, label, co)
 }
 
+fn run_hdrbits(c: &Case, m: &mut Model) -> Outcome {
+    let mut o = Outcome::default();
+    let keym = get(c, "mode") == "key"; let plen = getn(c, "plen"); let b = getn(c, "block");
+    let mut rng = Rng::new(get(c, "seed").parse().unwrap_or(0));
+    let pw = b"correct horse".to_vec();
+    let fs = 300 + b as u64;
+    let (f, rk, rpk, p) = if keym { crate::props::c09::sample_key_file(fs, plen) } else { let (f, p) = crate::props::c09::sample_pass_file(fs, plen, &pw); (f, vec![], vec![], p) };
+    // control: the authentic file is accepted (this also makes it the thread's "last accepted file" for the priming of every flipped variant)
+    let ctl = if keym { imp::key_decrypt(&rk, &rpk, &f, &NOSCRIPT) } else { imp::pass_decrypt(&pw, &f, &NOSCRIPT) };
+    o.validated += 1;
+    if ctl.res != "ok" || ctl.out != p { o.oracle_fail = Some(("authentic-accepted".into(), format!("the authentic {} file is not decrypted to its plaintext: {}", get(c, "mode"), ctl.res))); o.impl_obs = ctl.res; return o; }
+    let sampled = b * 32 + rng.below(32);
+    let mut accepted = vec![];
+    for bit in b * 32..b * 32 + 32 {
+        let mut t = f.clone(); t[bit / 8] ^= 1 << (bit % 8);
+        let r = if keym { imp::key_decrypt(&rk, &rpk, &t, &NOSCRIPT) } else { imp::pass_decrypt(&pw, &t, &NOSCRIPT) };
+        o.validated += 1;
+        if r.res == "crash" { o.oracle_fail = Some(("no-panic".into(), format!("decrypt panicked on header bit {}", bit))); break; }
+        if r.res == "ok" || !r.out.is_empty() { accepted.push((bit, r.res.clone(), r.out.len())); }
+        if bit == sampled {
+            let mr = parse_stream(&if keym { m.ask(&format!("key_decrypt {} {} {} - - -", hex(&rk), hex(&rpk), hexd(&t))) } else { m.ask(&format!("pass_decrypt {} {} - - -", hex(&pw), hexd(&t))) });
+            o.model_obs = format!("bit {}: {}", bit, imp::canon(&mr.res));
+            if r.res != imp::canon(&mr.res) && o.disagreement.is_none() { o.disagreement = Some(format!("header bit {} flipped: impl {}, model {}", bit, r.res, mr.res)); }
+        }
+    }
+    o.tags.push(format!("hdrbits {} block", get(c, "mode")));
+    o.nontrivial = Some(format!("hdrbits/{}/{}", get(c, "mode"), b));
+    o.impl_obs = format!("header bits {}..{}: {} accepted or released output", b * 32, b * 32 + 31, accepted.len());
+    if o.oracle_fail.is_none() { if let Some((bit, res, n)) = accepted.first() {
+        o.oracle_fail = Some(("tampered-file-rejected".into(), format!("{} mode, header bit {} (byte {}, mask {:#04x}) flipped, decrypted right after the authentic file on the same thread: result {} with {} bytes released", get(c, "mode"), bit, bit / 8, 1u8 << (bit % 8), res, n))); } }
+    o
+}
+
 fn run_tamper(c: &Case, m: &mut Model, c04: bool) -> Outcome {
+    if get(c, "kind") == "hdrbits" { return run_hdrbits(c, m); }
     let mut o = Outcome::default();
     if get(c, "kind") == "api" {
         let keym = get(c, "mode") == "key"; let pw = b"correct horse".to_vec();
@@ -218,6 +257,8 @@ fn run_c04_cli(c: &Case, m: &mut Model) -> Outcome {
 impl Prop for C04 {
     fn id(&self) -> &'static str { "C04" }
     fn rule(&self) -> String { format!("{}; sink accepts 1..3 bytes per write so that every write call is logged with the source position; oracle: released bytes are a whole-chunk prefix of the authentic plaintext, no write of chunk i before record i is fully consumed, success only with complete output; plus the real binary (both modes, -o and stdout) on intact, trailing-byte, corrupted, truncated and flag-cleared two-chunk files: exit 0 only with the complete plaintext released", RULE) }
-    fn cases(&self, tier: &str, seed: u64) -> Vec<Case> { let mut v = tamper_cases(tier, seed ^ 4); v.extend(c04_cli_cases(tier, seed)); v }
-    fn run(&self, c: &Case, m: &mut Model) -> Outcome { if get(c, "kind") == "cli" { run_c04_cli(c, m) } else { run_tamper(c, m, true) } }
+    fn cases(&self, tier: &str, seed: u64) -> Vec<Case> { let mut v = tamper_cases(tier, seed ^ 4); v.extend(c04_cli_cases(tier, seed));
+        // decryption whose output cannot be delivered (full device, reader gone): an error on the write side is never reported as success
+        v.extend(crate::props::c10::C10.cases(tier, seed ^ 0x04).into_iter().filter(|c| get(c, "op") == "cli-devfull" && get(c, "cmd").ends_with("decrypt"))); v }
+    fn run(&self, c: &Case, m: &mut Model) -> Outcome { if get(c, "op") == "cli-devfull" { crate::props::c10::C10.run(c, m) } else if get(c, "kind") == "cli" { run_c04_cli(c, m) } else { run_tamper(c, m, true) } }
 }
